@@ -315,6 +315,9 @@ class Flow:
                 self.ev('aug', s, name=s.target.id, op=opn, value=v, new=new)
             else:
                 trf = self.expr(s.target)
+                if opn == 'Sub':
+                    # x[i] -= v is the accumulation x[i] += -v
+                    opn, v = 'Add', -v
                 self.ev('store', s, target=trf, target_ast=s.target, op=opn,
                         value=v)
         elif isinstance(s, ast.Expr):
